@@ -63,8 +63,9 @@ def cases(tier, seed):
     out = [Case("kernels", kind="kernels", m=b["sources"], n=b["evaluation_points"], seed=seed)]
     for lu, cu in b["unit_systems"]:
         out.append(Case(f"biot_savart_2d:{lu}:{cu}", kind="units", m=b["sources"], n=b["evaluation_points"], lu=lu, cu=cu, seed=seed))
-    out.append(Case("solution:field_at_position", kind="sol_field", m=b["sources"], n=b["evaluation_points"], seed=seed))
-    out.append(Case("solution:vector_potential_at_position", kind="sol_vecpot", m=b["sources"], n=b["evaluation_points"], seed=seed))
+    for lu, cu in (("um", "uA"), ("um", "mA")) + ((("nm", "uA"),) if tier == "thorough" else ()):
+        out.append(Case(f"solution:field_at_position:{lu}:{cu}", kind="sol_field", m=b["sources"], n=b["evaluation_points"], lu=lu, cu=cu, seed=seed))
+        out.append(Case(f"solution:vector_potential_at_position:{lu}:{cu}", kind="sol_vecpot", m=b["sources"], n=b["evaluation_points"], lu=lu, cu=cu, seed=seed))
     out.append(Case("cdist", kind="cdist", seed=seed))
     out.append(Case("convert_field", kind="convert", seed=seed))
     return out
@@ -138,6 +139,7 @@ def body_units(H, case):
     z0 = H.real("z0", lo=-0.1, hi=0.1)
     to_m = float(ureg(case.lu).to("m").magnitude)
     to_Am = float(ureg(f"{case.cu} / {case.lu}").to("A / m").magnitude)
+    snap = snapshot(pos=pos, J=J, areas=areas, ev=ev)
     for vector in (True, False):
         B = biot_savart_2d(ev[:, 0], ev[:, 1], ev[:, 2], positions=pos, current_densities=J, z0=z0, areas=areas,
                            length_units=case.lu, current_units=case.cu, vector=vector)
@@ -154,6 +156,27 @@ def body_units(H, case):
                     H.prove_eq(f"biot_savart_2d vector [{i},{c}] = SI sum (z0 and all coordinates in metres)", K.at(Bm, i, c), ref[c], timeout=120, scale=1e-30)
             else:
                 H.prove_eq(f"biot_savart_2d scalar [{i}] = SI sum", K.at(Bm, i), ref[2], timeout=120, scale=1e-30)
+        unchanged(H, f"vector={vector}", snap, pos=pos, J=J, areas=areas, ev=ev)
+
+
+def snapshot(**arrays):
+    return {k: list(K.elems(v)) for k, v in arrays.items()}
+
+
+def unchanged(H, tag, snap, **arrays):
+    """the caller's arrays are not modified by the call (a second evaluation sees the same currents)"""
+    for k, v in arrays.items():
+        now = list(K.elems(v))
+        same = len(now) == len(snap[k])
+        if same:
+            for a, b in zip(now, snap[k]):
+                if a is b:
+                    continue
+                if H.mode == "sym" and hasattr(a, "re") and hasattr(b, "re"):
+                    same = same and str(a.re) == str(b.re) and str(a.im) == str(b.im)
+                else:
+                    same = same and bool(a == b)
+        H.prove(f"{tag}: the caller's array '{k}' is left unmodified", same)
 
 
 class _FakeSolution:
@@ -172,11 +195,11 @@ def fake_solution(H, case, z0):
     sol = _FakeSolution()
     mesh = SimpleNamespace(areas=areas / xi**2)
     film = SimpleNamespace(contains_points=lambda p: np.zeros(len(p), dtype=bool))
-    sol.device = SimpleNamespace(ureg=ureg, points=pos, mesh=mesh, coherence_length=xi * ureg("um"), length_units="um",
+    sol.device = SimpleNamespace(ureg=ureg, points=pos, mesh=mesh, coherence_length=xi * ureg(case.lu), length_units=case.lu,
                                  layer=SimpleNamespace(z0=z0), film=film)
-    sol.field_units, sol.current_units = "mT", "uA"
-    sol.supercurrent_density = Js * ureg("uA / um")
-    sol.normal_current_density = Jn * ureg("uA / um")
+    sol.field_units, sol.current_units = "mT", case.cu
+    sol.supercurrent_density = Js * ureg(f"{case.cu} / {case.lu}")
+    sol.normal_current_density = Jn * ureg(f"{case.cu} / {case.lu}")
     return sol, pos, Js, Jn, areas, ev
 
 
@@ -186,16 +209,19 @@ def body_sol_field(H, case):
     z0 = H.real("z0", lo=-0.1, hi=0.1)
     sol, pos, Js, Jn, areas, ev = fake_solution(H, case, z0)
     n, m = case.n, case.m
+    snap = snapshot(Js=Js, Jn=Jn, pos=pos, areas=areas, ev=ev)
     parts = Solution.field_at_position(sol, ev, vector=True, units="mT", with_units=False, return_sum=False)
+    unchanged(H, "after the first evaluation", snap, Js=sol.supercurrent_density.magnitude, Jn=sol.normal_current_density.magnitude, pos=pos, areas=areas, ev=ev)
     total = Solution.field_at_position(sol, ev, vector=True, units="mT", with_units=False, return_sum=True)
     from tdgl.em import ureg
 
-    to_m, t_to_mT = float(ureg("um").to("m").magnitude), float(ureg("T").to("mT").magnitude)
+    to_m, t_to_mT = float(ureg(case.lu).to("m").magnitude), float(ureg("T").to("mT").magnitude)
+    to_Am = float(ureg(f"{case.cu} / {case.lu}").to("A / m").magnitude)
     pos3 = H.array2([[K.at(pos, k, 0) * to_m, K.at(pos, k, 1) * to_m, z0 * to_m] for k in range(m)])
     ev_m = H.array2([[K.at(ev, i, c) * to_m for c in range(3)] for i in range(n)])
     a_si = H.array([K.at(areas, k) * to_m**2 for k in range(m)])
     for nm, J, part in (("supercurrent", Js, parts.supercurrent), ("normal current", Jn, parts.normal_current)):
-        J_si = H.array2([[K.at(J, k, c) * 1.0 for c in range(2)] for k in range(m)])  # uA/um = A/m
+        J_si = H.array2([[K.at(J, k, c) * to_Am for c in range(2)] for k in range(m)])
         for i in range(n):
             ref = reference(H, ev_m, pos3, J_si, a_si, i)
             for c in range(3):
@@ -221,11 +247,13 @@ def body_sol_vecpot(H, case):
             return Aapp
 
     sol.applied_vector_potential = Applied()
-    units = "mT * um"
+    units = f"mT * {case.lu}"
+    snap = snapshot(Js=Js, Jn=Jn, pos=pos, areas=areas, ev=ev)
     parts = Solution.vector_potential_at_position(sol, ev, units=units, with_units=False, return_sum=False)
+    unchanged(H, "after the first evaluation", snap, Js=sol.supercurrent_density.magnitude, Jn=sol.normal_current_density.magnitude, pos=pos, areas=areas, ev=ev)
     total = Solution.vector_potential_at_position(sol, ev, units=units, with_units=False, return_sum=True)
     # the same two exact factors pint applies: 1/(4 pi) on the magnitude, then the unit conversion of mu_0 uA
-    c1, c2 = 1 / (4 * float(np.pi)), float((1.0 * ureg("mu_0") * ureg("uA")).to(units).magnitude)
+    c1, c2 = 1 / (4 * float(np.pi)), float((1.0 * ureg("mu_0") * ureg(case.cu)).to(units).magnitude)
     for key, J in (("supercurrent_density", Js), ("normal_current_density", Jn)):
         for i in range(n):
             for c in range(2):
